@@ -44,6 +44,30 @@ def cases(tier, rng):
             out.append(("(rename-term 7 %s)" % l, "rename"))
             if s[-1] in (X, Y):
                 out.append(("(rename-term 7 %s)" % lst(list(s[:-1]), s[-1]), "rename") if len(s) > 1 else ("(rename-term 3 %s)" % l, "rename"))
+    from gen.universe import tail_chain
+    el = [atom("a"), atom("b"), integer(1), lst([atom("c")]), EMPTY]
+    for ids, last in (([4, 68, 132], None), ([5, 261, 517, 69], lst([atom("c")])), (list(range(30, 97)), None), (list(range(30, 160)), lst([atom("q")]))):
+        l, d = tail_chain(ids, el, last)
+        out.append(("(bip %s (%s %s) %s)" % (S("append"), l, OUT, ss_from(d)), "append"))
+        out.append(("(bip %s (%s %s %s) %s)" % (S("append"), atom("x"), l, OUT, ss_from(d)), "append"))
+    # parsed lists: the text of a list of 0-5 and 8-20 elements (atoms, integers of every magnitude, floats, variables, $_, [],
+    # nested lists with and without tails, complex terms), with and without a tail variable, through parse_term and parse_linked_list
+    from lib import pretty
+    PV = lambda n: var(0, n)
+    pel = [atom("a"), atom("b c"), integer(1), integer(-7), integer(2**53 + 1), integer(1234567890123456789), integer(-2**63 + 1), integer(2**63 - 1),
+           flt(2.5), flt(0.1), PV("$X"), PV("$Y"), ANON, EMPTY, lst([atom("b")]), lst([atom("b"), atom("c")]), lst([PV("$X")], PV("$Y")),
+           cplx("f", atom("a")), cplx("f", lst([atom("a")])), lst([EMPTY]), lst([atom("b")], ANON), atom("Zo\u00eb"), atom("\u65e5\u672c")]
+    pseqs = [[]] + [[x] for x in pel] + [[x, y] for x in pel[:12] for y in pel[8:]]
+    for _ in range(150 if tier == "quick" else 4000):
+        pseqs.append([rng.choice(pel) for _ in range(rng.choice([3, 4, 5, 8, 12, 17, 20]))])
+    for xs in pseqs:
+        for tl in ((None, PV("$T"), ANON) if xs else (None,)):
+            t = lst(xs, tl)
+            text = pretty.term(parse(t))
+            for opn in ("parse-term", "parse-list"):
+                cse = "(%s %s)" % (opn, S(text))
+                _PARSED[cse] = (xs, tl)
+                out.append((cse, "parsed"))
     # the constant Nil as an element (last: the constructor drops it; elsewhere: it is kept as a term)
     for p in [()] + [(x,) for x in SMALL] + list(itertools.product(SMALL, repeat=2)):
         for q in (p + (NIL,), (NIL,) + p, p + (NIL, NIL)):
@@ -56,7 +80,8 @@ def cases(tier, rng):
 
 RULE = ("element sequences of length 0-2 (all), 3 (all over a 6-term universe), 3-5 and 8-33 (random) over atoms, numbers, "
         "variables, $_, [], nested lists with and without tail variable, complex terms; each through make_list_of_terms, "
-        "make_linked_list (with and without vbar; also with the constant Nil among the terms - model-vs-implementation only), append (also with the tail variables bound to [], to a list and through a chain ending in []), include/exclude (filters that keep everything but unbound variables) and clause renaming. Oracle on "
+        "(and, as text, through parse_term / parse_linked_list: 0-5 and 8-20 elements incl. integers beyond 2^53 and at the i64 limits, non-ASCII atoms, with and without a tail variable / $_) "
+        "make_linked_list (with and without vbar; also with the constant Nil among the terms - model-vs-implementation only), append (also over lists spread over chains of 3-130 bound tail variables, and with the tail variables bound to [], to a list and through a chain ending in []), include/exclude (filters that keep everything but unbound variables) and clause renaming. Oracle on "
         "the implementation's own results: the view `elems` (python twin of Spec.SpecLists.elems) of the built list is exactly "
         "the given sequence / the specified splice, every count is the number of nodes, renaming keeps the shape. "
         "Non-trivial = the sequence contains a list-valued or empty-list element or a tail variable.")
@@ -65,6 +90,7 @@ def nontrivial(case, tag, result):
     return "(l " in case.split(" ", 2)[-1]
 
 REL_STATS = {}
+_PARSED = {}
 def _erase(t):
     if isinstance(t, list):
         if t and t[0] == "v": return ["v", "0", t[2]]
@@ -81,7 +107,14 @@ def relations(cases, impl):
         if res in ("panic", "diverged"):
             yield dict(case=case, tag=tag, why="building a list ended in " + res, implementation=dict(result=res)); continue
         why = None
-        if tag == "list-of-terms":
+        if tag == "parsed":
+            xs, tl = _PARSED[case]
+            REL_STATS["oracle_checks"] += 1
+            exp = ([parse(x) for x in xs], None if tl is None else parse(tl))
+            got = pyspec.elems(r[1]) if isinstance(r, list) and r and r[0] == "ok" else None
+            if got != exp: why = "the parsed list does not hold exactly the elements written in the text"
+            elif int(r[1][3]) != len(xs) + (1 if tl is not None else 0): why = "recorded length is not the number of nodes"
+        elif tag == "list-of-terms":
             xs = c[1]
             REL_STATS["oracle_checks"] += 1
             if pyspec.elems(r) != (xs, None) or int(r[3]) != len(xs):
